@@ -409,6 +409,124 @@ def r09_f(prog: Program, chk: Check) -> None:
                f"{c['n']} cases, {c['bad']} failing" + (f"; smallest: {wit[0]}" if wit else ""), witness=wit)  # type: ignore[index]
 
 
+# ------------------------------------------------------------------- R09.g
+def _closure_chunk(args):
+    part, nparts, step = args
+    import ast as _ast
+
+    from ..model import Program as _P
+    from . import scope_model as smod
+
+    model = smod.ScopeModel(_P())
+    U = smod.UNINIT
+    n = 0
+    classes: Dict[str, Dict[str, object]] = {}
+
+    def note(key: str, bad: bool, detail) -> None:
+        c = classes.setdefault(key, {"n": 0, "bad": 0, "witness": []})
+        c["n"] += 1  # type: ignore[operator]
+        if bad:
+            c["bad"] += 1  # type: ignore[operator]
+            w = c["witness"]
+            w.append(detail)  # type: ignore[union-attr]
+            w.sort(key=lambda d: (len(d["function"]), repr(d)))  # type: ignore[union-attr]
+            del w[3:]  # type: ignore[arg-type]
+
+    # (1) closures: nested functions with nonlocal / global / free names, called at known points
+    for idx, (src, module_vars) in enumerate(smod.closure_programs()):
+        if idx % nparts != part or (step > 3 and idx % 3 and not module_vars and "nonlocal" in src):
+            continue
+        fn = _ast.parse(src).body[0]
+        obs = model.revealed(fn, module_vars)
+        if not isinstance(obs, dict):
+            note("closures::no-crash", True, {"function": src, "error": obs[1]})
+            continue
+        note("closures::no-crash", False, {"function": src})
+        init = {v: frozenset({f"mod:{v}"}) for v in module_vars}
+        strict = smod.Reaching(False).run(fn, init)
+        liberal = smod.Reaching(True).run(fn, init)
+        kinds, labels, written_by_nested = smod.classify_uses(fn)
+        for u in [x for x in _ast.walk(fn) if isinstance(x, _ast.Name) and isinstance(x.ctx, _ast.Load) and x.id in ("x", "g")]:
+            lib = liberal.get(id(u), set())
+            if not lib:
+                continue  # no call reaches the use
+            n += 1
+            stc = strict.get(id(u), set())
+            o = obs.get(id(u), set())
+            kind, var = kinds[id(u)]
+            d = {"function": src, "use": f"{u.id} at line {u.lineno}", "kind": kind, "obtained": sorted(o), "strict": sorted(stc), "liberal": sorted(lib)}
+            if kind == "own" and var not in written_by_nested:
+                bare = var.split(".")[-1]
+                shadowed = {f"mod:{bare}"}.union(*[ls for v, ls in labels.items() if v != var and v.split(".")[-1] == bare])
+                falls_through = U in lib and (stc - {U}) <= o and ((U in stc and U not in o) or bool(o - lib) and (o - lib) <= shadowed)
+                if falls_through:
+                    note("closures::a local read before its first assignment is unbound, whatever an enclosing scope binds", True, d)
+                else:
+                    note("closures::a function's own names: strict subset and liberal superset", not stc <= o <= lib, d)
+            elif kind == "own":
+                # the nested function may also run at other times: its assignments are allowed everywhere after its definition
+                note("closures::names that a nested function assigns through nonlocal, read in the enclosing function", not (stc <= o <= lib | labels.get(var, set())), d)
+            else:
+                allowed = lib | labels.get(var, set()) | ({f"mod:{var}"} if kind in ("global", "module") else set())
+                note(f"closures::{kind} names read in the nested function: every definition that reaches the call is obtained", not (stc - {U}) <= o, d)
+                note(f"closures::{kind} names read in the nested function: only assignments to that variable are obtained", not (o - {U}) <= allowed, d)
+                note("closures::a closure name that is unbound at the call is reported", U in stc and U not in o, d)
+    # (2) the checking phase obtains exactly the definitions the collecting phase recorded
+    for idx, src in enumerate(smod.programs(max(step, 3))):
+        if idx % nparts != part or idx % 2:
+            continue
+        fn = _ast.parse(src).body[0]
+        rep = model.reported(fn)
+        obs = model.revealed(fn)
+        if not isinstance(rep, dict):
+            continue  # R09.f reports it
+        if not isinstance(obs, dict):
+            note("phases::no-crash", True, {"function": src, "error": obs[1]})
+            continue
+        for u in [x for x in _ast.walk(fn) if isinstance(x, _ast.Name) and isinstance(x.ctx, _ast.Load) and id(x) in rep]:
+            n += 1
+            r = rep.get(id(u)) or {U}
+            o = obs.get(id(u), set())
+            note("phases::the values of the checking phase come from exactly the recorded definitions", r != o, {"function": src, "use": f"{u.id} at line {u.lineno}", "recorded": sorted(r), "obtained": sorted(o)})
+    return n, classes
+
+
+def r09_g(prog: Program, chk: Check) -> None:
+    import multiprocessing as mp
+    import os as _os
+
+    step = 9 if _os.environ.get("VERIF_SELFTEST") else 1 if chk.tier == "thorough" else 3
+    chk.rule(
+        "R09.g",
+        "values at uses, nested functions and global / nonlocal as a finite model: NameCheckVisitor._visit_function_body (a new FunctionScope through StackedScopes.add_scope, the "
+        "collecting pass, the checking pass; nested defs recursively), visit_Nonlocal / visit_Global and the value resolution (FunctionScope._get_value_from_nodes / _resolve_value / "
+        "_resolve_origin, Scope.get / set / resolve_reference, _constrain_value) are interpreted from their AST; a value is the set of assignments it may come from. For functions with "
+        "a nested function that reads or assigns names of the enclosing function or of the module, called at known points, the values obtained in the checking phase lie between the "
+        "strict and the liberal reaching-definitions sets of the independent analysis (a call executes the nested body on the caller's state); on the programs of R09.f the checking "
+        "phase obtains exactly the definitions the collecting phase recorded",
+        floor=6,
+    )
+    procs = 2 if _os.environ.get("VERIF_SELFTEST") else min(16, _os.cpu_count() or 1)
+    with mp.get_context("fork").Pool(procs) as pl:
+        results = pl.map(_closure_chunk, [(i, procs * 2, step) for i in range(procs * 2)])
+    total = 0
+    merged: Dict[str, Dict[str, object]] = {}
+    for n, classes in results:
+        total += n
+        for k, c in classes.items():
+            m = merged.setdefault(k, {"n": 0, "bad": 0, "witness": []})
+            m["n"] += c["n"]  # type: ignore[operator]
+            m["bad"] += c["bad"]  # type: ignore[operator]
+            m["witness"] = sorted(list(m["witness"]) + list(c["witness"]), key=lambda d: (len(d["function"]), repr(d)))[:3]  # type: ignore[arg-type]
+    chk.model_evaluations += total
+    chk.analysed["closure_model"] = {"uses_compared": total}
+    site = prog.site("stacked_scopes", prog.func("stacked_scopes", "FunctionScope._resolve_value"))
+    for k, c in sorted(merged.items()):
+        wit = c["witness"]
+        chk.ob("R09.g", f"stacked_scopes::value-model::{k}", int(c["bad"]) == 0, site,  # type: ignore[arg-type]
+               f"{c['n']} cases, {c['bad']} failing" + (f"; smallest: {wit[0]}" if wit else ""), witness=wit)  # type: ignore[index]
+
+
 def run(prog: Program, chk: Check) -> None:
     guard(chk, r09_e, prog, chk)
     guard(chk, r09_a, prog, chk)
@@ -416,3 +534,4 @@ def run(prog: Program, chk: Check) -> None:
     guard(chk, r09_c, prog, chk)
     guard(chk, r09_d, prog, chk)
     guard(chk, r09_f, prog, chk)
+    guard(chk, r09_g, prog, chk)
